@@ -423,10 +423,18 @@ def qr_case(ctx, tier, struct, mods=None, qconjs=(1, -1), cplx=False, subset='al
             if low:
                 ctx.prove_eq(np.array(low, dtype=blk.dtype), np.zeros(len(low)), f'{tag}: R upper triangular per block')
             if pos_diag:
+                # positive, except that a diagonal entry of a rank deficient block can only be made non-negative: zero is
+                # accepted exactly for a zero column of the block of A (the exact rank deficiency inside the claim, ASSUMPTIONS)
+                sl1 = Rm.legs[1].slices
+                qj = int(Rm._qdata[[id(b) for b in Rm._data].index(id(blk)), 1])
                 for k in range(min(blk.shape)):
                     d = blk[k, k]
                     ctx.prove_eq(np.imag(d) if not ctx.symbolic else d.imag, 0., f'{tag}: diagonal of R real')
-                    ctx.prove((d.real if ctx.symbolic else np.real(d)) > 0, f'{tag}: diagonal of R positive')
+                    dr = d.real if ctx.symbolic else np.real(d)
+                    col = dAm[:, int(sl1[qj]) + k]
+                    colzero = ctx.And(*[x == 0 for x in col]) if len(col) else True
+                    ctx.prove(dr >= 0, f'{tag}: diagonal of R non-negative')
+                    ctx.prove(ctx.Or(dr > 0, colzero), f'{tag}: diagonal of R positive unless the column of A vanishes')
 
 
 # ------------------------------------------------------------------------------------------------------------------
@@ -698,12 +706,7 @@ def CASES(tier, seed):
         if name in seen:
             return
         seen.add(name)
-        o = dict(O)
-        if params.get('left'):
-            # every concrete run of polar(left=True) hits the known finding, also on models of paths whose symbolic run ended
-            # early ("no singular value above the cutoff" is a fork on stub outputs): no path-model validation for these cases
-            o['validate_paths'] = 0
-        cases.append(dict(name=name, fn=fn, params=params, opts=o))
+        cases.append(dict(name=name, fn=fn, params=params, opts=dict(O)))
 
     def c_(cplx):
         return 'c' if cplx else 'r'
@@ -766,9 +769,9 @@ def CASES(tier, seed):
     for st, cplx in (('u1', False), ('u1', True), ('u1_unblocked', False), ('u1_qtot', False), ('z2', False), ('z3', False), ('u1z2', False)):
         simple('pinv_case', 'pinv', 'B', st, cplx, **B)
         simple('polar_case', 'polar', 'B', st, cplx, left=False, **B)
-    simple('polar_case', 'polar', 'B', 'sq_u1', False, left=False, **B)
-    for st, cplx in (('u1', False), ('u1', True), ('u1_unblocked', False), ('z2', False)):
         simple('polar_case', 'polar', 'B', st, cplx, left=True, **B)
+    simple('polar_case', 'polar', 'B', 'sq_u1', False, left=False, **B)
+    simple('polar_case', 'polar', 'B', 'sq_u1', False, left=True, **B)
     for sort in SORTS:
         eig('B', 'sq_u1', False, True, sort, **B)
         eig('B', 'sq_u1', False, False, sort, **B)
@@ -816,8 +819,7 @@ def CASES(tier, seed):
             simple('ortho_case', 'orthogonal_columns', 'A', 'atall', **kw)
             simple('pinv_case', 'pinv', 'A', 'a21', **kw)
             simple('polar_case', 'polar', 'A', 'a21' if not thorough else 'a22', left=False, **kw)
-            if mods == [1]:
-                simple('polar_case', 'polar', 'A', 'a21', left=True, **kw)
+            simple('polar_case', 'polar', 'A', 'a21' if not thorough else 'a22', left=True, **kw)
         for qc0 in (1, -1):
             if qc0 == -1 and mods != [1]:
                 continue
@@ -846,6 +848,7 @@ def CASES(tier, seed):
                     qr('B', st, cplx, mode, cut, pos, lq=True, **B)
             simple('pinv_case', 'pinv', 'B', st, cplx, **(dict(B, mp=False) if (cplx and st == 'u1_unblocked') else B))
             simple('polar_case', 'polar', 'B', st, cplx, left=False, **B)
+            simple('polar_case', 'polar', 'B', st, cplx, left=True, **B)
     for st in sq_B:
         for cplx in (False, True):
             for sort in SORTS:
@@ -868,6 +871,7 @@ def CASES(tier, seed):
             simple('pinv_case', 'pinv', 'A', 'a22', mp=False, **kw)  # (Moore-Penrose identities of the 3x3 block: solver unknown)
             simple('pinv_case', 'pinv', 'A', 'a21', **kw)
             simple('polar_case', 'polar', 'A', 'a22', left=False, **kw)
+            simple('polar_case', 'polar', 'A', 'a22', left=True, **kw)
         for qc0 in (1, -1):
             kw = dict(mods=mods, qconjs=[qc0, -qc0], tag=f'mod={mods},qconj={qc0}')
             for sort in (None, 'm>'):
@@ -893,6 +897,7 @@ def CASES(tier, seed):
         svd('B', 'u1_big', cplx, cut=True, subset='all')
         qr('B', 'u1_big', cplx, pos=True, **B)
         simple('polar_case', 'polar', 'B', 'u1_big', cplx, left=False, subset='all')
+        simple('polar_case', 'polar', 'B', 'u1_big', cplx, left=True, subset='all')
         eig('B', 'sq_u1_big', cplx, **B)
         simple('expm_case', 'expm', 'B', 'sq_u1_big', cplx, **B)
     return cases
